@@ -6,7 +6,7 @@ sys.path.insert(0, os.path.join(os.path.dirname(os.path.abspath(__file__)), ".."
 import vlib
 
 RULES = {
- "C01": "every set of m rows from the row alphabet R_n x every block/band covariance layout x 2 value families x b in {basis, mixed} x every regularisation subset S x 4 algorithms through GNU_gama::Adj; oracle: r=Ax-b, A'Pr=0, defect=exact nullity (Bareiss), min-norm over S, rtr=r'Pr",
+ "C01": "every set of m rows from the row alphabet R_n x every block/band covariance layout x 2 value families (+ a badly scaled diagonal family with weights over 9 decades for every regular row set, compared with a long double reference) x b in {basis, mixed} x every regularisation subset S x 4 algorithms through GNU_gama::Adj; oracle: r=Ax-b, A'Pr=0, defect=exact nullity (Bareiss), min-norm over S, rtr=r'Pr",
  "C02": "same space; pairwise agreement of the 4 algorithms on defect, x, r, rtr, all q_xx(i,j), q_bb(i,j) (original and homogenised); every non-resolving S must be refused by every algorithm",
  "C03": "same space; all index pairs: Q symmetric psd, NQN=N, QNQ=Q, QN=I (defect 0), (n_S)'Q=0, q_bb=AQA', HPH=H, homogenised q_bb idempotent with diagonal in [0,1] and redundancy sum = dof",
  "C08": "algebraic part: every singular member of P, all resolving subsets S: residuals, rtr, q_bb, defect invariant; x orthogonal to the null space over S",
